@@ -18,7 +18,7 @@ Unknown == [n |-> -2, dig |-> "unknown", vals |-> <<>>]
 NoDt == [cls |-> -1, size |-> 0, sign |-> 0]
 
 Obj(k) == [k |-> k, links |-> EmptyFn, dt |-> NoDt, dims |-> <<>>, max |-> <<>>, chunk |-> <<>>,
-           data |-> [f64 |-> NoData, str |-> NoData, cmp |-> NoData], written |-> FALSE,
+           data |-> [f64 |-> NoData, str |-> NoData, cmp |-> NoData, raw |-> NoData], written |-> FALSE,
            attrs |-> EmptyFn, t |-> <<>>,
            wdims |-> <<>>,       \* extents when the data was last written
            lo |-> <<>>,          \* per dimension: smallest extent since the data was last written
